@@ -32,7 +32,7 @@ for f in sorted(os.listdir(src)):
             clauses.append(v[1])
 meta = {
     "property": re.match(r"C\d+", ID).group(0),
-    "origin": "independent sub-agent (thirteenth wave) given only the property text, the nine earlier seeds' triggers to avoid, and a scratch worktree",
+    "origin": "independent sub-agent (fourteenth wave) given only the property text, the ten earlier seeds' triggers to avoid, and a scratch worktree",
     "needs_to_manifest": needs,
     "confirmed": {"existing_suite_on_changed_tree": suite,
                   "demo_on_unchanged": "PASS" if r0.returncode == 0 else f"exit {r0.returncode}",
